@@ -92,7 +92,7 @@ CHECKS = {
     "C04": dict(
         category="fault_enumeration",
         text="Every mutating file-system operation of a generated scenario (index enumerated from a counting dry "
-             "run) x {OSError once, OSError sticky, process death before / after (forked child, os._exit)}; observer "
+             "run) x {OSError once, OSError sticky, OSError persistent on that path, process death before / after (forked child, os._exit)}; observer "
              "= fresh Context without faults: everything reported stored loads completely and equals the whole-run "
              "reference, a call that returned normally stored what the fault-free run stores, and the identical retry "
              "succeeds without cleanup. Both processors, serial and thread-pool saving, and savers inlined (forked) "
